@@ -83,12 +83,12 @@ def universes(thorough):
         spec = [((2, 3), 1), ((2, 3), 2), ((2, 3), 3), ((2, 3), 4), ((3, 3), 2), ((3, 3), 3), ((1, 3), 3), ((2, 2, 2), 2),
                 ((2, 2, 2), 3), ((2, 3, 2), 3), ((3, 2, 3), 2)]
     else:
-        spec = [((2, 3), 1), ((2, 3), 2), ((2, 3), 3), ((3, 3), 2), ((2, 2, 2), 2), ((1, 3), 2)]
+        spec = [((2, 3), 1), ((2, 3), 2), ((2, 3), 3), ((2, 2, 2), 2), ((1, 3), 2)]
     out = []
     for cards, n in spec:
         cols = TOKENS[:len(cards)]
         maxpar = len(cards) - 1
-        types, emax = _types(cards, maxpar, extra=[(1, 1), (3, 2)])
+        types, emax = _types(cards, maxpar, extra=[(3, 2)] + ([(1, 1)] if thorough else []))
         decls = [cols, [], cols[-1:]] if len(cols) > 1 else [cols, []]
         out.append({"id": f"U{'x'.join(map(str, cards))}n{n}", "kind": "universe", "cols": cols, "dom": _dom(cards), "rows": [],
                     "nrows": n, "types": types, "decls": decls, "maxpar": maxpar, "emax": emax})
@@ -97,9 +97,9 @@ def universes(thorough):
 
 def random_data(rng, thorough):
     """seeded larger data sets: skewed (sparse: many unobserved parent configurations), declared extra states, card 1..4"""
-    shapes = [((2, 3, 2, 2), 12, 3), ((3, 2, 3, 1), 9, 3), ((2, 2, 3, 3), 20, 3), ((3, 4, 2, 3, 2), 14, 2)]
+    shapes = [((2, 3, 2, 2), 12, 3), ((3, 2, 3, 1), 9, 3), ((3, 4, 2, 3, 2), 14, 2)]
     if thorough:
-        shapes += [((2, 2, 2, 2), 30, 3), ((3, 3, 2, 2), 25, 3), ((2, 3, 4, 2), 16, 3), ((1, 2, 3, 2), 10, 3), ((3, 3, 3, 2), 40, 3),
+        shapes += [((2, 2, 3, 3), 20, 3), ((2, 2, 2, 2), 30, 3), ((3, 3, 2, 2), 25, 3), ((2, 3, 4, 2), 16, 3), ((1, 2, 3, 2), 10, 3), ((3, 3, 3, 2), 40, 3),
                    ((2, 3, 2, 4, 3), 30, 3), ((4, 2, 3, 2, 2, 3), 24, 2), ((3, 3, 2, 4, 2, 2), 45, 2), ((2, 4, 4, 3, 2), 18, 2)]
     out = []
     for k, (cards, n, maxpar) in enumerate(shapes):
@@ -170,11 +170,11 @@ def make_groups(insts, recs, dags, rng, thorough):
         if n <= 2:
             pick = list(range(len(classes)))
         elif universe:
-            pick = rng.sample(range(len(classes)), 2 if not thorough else 3)
+            pick = rng.sample(range(len(classes)), 1 if not thorough else 3)
         elif n == 3:
             pick = list(range(len(classes)))
         else:
-            pick = rng.sample(range(len(classes)), min(len(classes), 60 if thorough else 14))
+            pick = rng.sample(range(len(classes)), min(len(classes), 60 if thorough else 8))
         # whole classes are handed over, so every pair of equivalent DAGs inside a picked class is compared
         g["dags"] = [dags[n]["by_key"][k] for ci in pick for k in classes[ci]]
         g["full"] = not universe
@@ -228,8 +228,8 @@ def run(ctx):
     r = ctx.tlc("MC_C10Form", "CONSTANT PMax = %d\nINIT Init\nNEXT Next\nINVARIANT Holds\nINVARIANT Emit\n" % (400 if ctx.thorough else 160),
                 tag="MC_form", coverage=True)
     ctx.extra["lgamma_table_checked"] = check_evaluator(r.prints)
-    r = ctx.tlc("Gen_C10D", "CONSTANT PMax = 2\nCONSTANT MaxN = 4\nCONSTANT SameDSepMaxN = 3\nINIT Init\nNEXT Next\n"
-                "INVARIANT ClassLemmas\nINVARIANT Emit\n", tag="Gen_dags", coverage=True, timeout=3000)
+    r = ctx.tlc("Gen_C10D", "CONSTANT PMax = 2\nCONSTANT MaxN = 4\nCONSTANT SameDSepMaxN = 3\nCONSTANT IEqMaxN = %d\nINIT Init\nNEXT Next\n"
+                "INVARIANT ClassLemmas\nINVARIANT Emit\n" % (4 if ctx.thorough else 3), tag="Gen_dags", coverage=True, timeout=3000)
     dags = read_dags(r.prints)
     if [len(dags[n]["by_key"]) for n in (1, 2, 3, 4)] != [1, 3, 25, 543] or len(dags[4]["classes"]) != 185:
         raise Machinery("Gen_C10D: unexpected number of DAGs / classes")
@@ -264,6 +264,7 @@ def run(ctx):
         ctx.evaluations += res["calls"]
         for k, v in res["checks"].items():
             tot[k] = tot.get(k, 0) + v
+        ctx.extra.setdefault("worker_seconds", []).append(res["timing"])
         for fl in res["fails"]:
             ctx.violation(fl)
     ctx.extra["checks"] = tot
@@ -291,7 +292,7 @@ def selftest(ctx):
     if r.invariant_violated != "ScoreEquivalent":
         raise Machinery(f"selftest: TLC did not refute score equivalence of K2 (got {r.invariant_violated})")
     recs = run_gen(ctx, [inst], "self")
-    r = ctx.tlc("Gen_C10D", "CONSTANT PMax = 2\nCONSTANT MaxN = 3\nCONSTANT SameDSepMaxN = 3\nINIT Init\nNEXT Next\n"
+    r = ctx.tlc("Gen_C10D", "CONSTANT PMax = 2\nCONSTANT MaxN = 3\nCONSTANT SameDSepMaxN = 3\nCONSTANT IEqMaxN = 3\nINIT Init\nNEXT Next\n"
                 "INVARIANT ClassLemmas\nINVARIANT Emit\n", tag="self_dags")
     dags = read_dags(r.prints)
     inst3 = dict(inst, id="S3", cols=inst["cols"][:3], dom={c: inst["dom"][c] for c in inst["cols"][:3]},
@@ -445,6 +446,14 @@ def replay_groups(payload):
         checks[name] = checks.get(name, 0) + k
 
     ntraces = 0
+    import time
+    tim = {}
+    t_last = [time.time()]
+
+    def lap(name):
+        now = time.time()
+        tim[name] = tim.get(name, 0.0) + now - t_last[0]
+        t_last[0] = now
     for g in payload["groups"]:
         inst, rows, decl = g["inst"], g["rows"], g["decl"]
         rng = random.Random(f"{seed}|{g['gid']}")
@@ -452,6 +461,7 @@ def replay_groups(payload):
         df, sn = conc.frame(rows, decl, rng)
         conc2 = Conc(inst, rng)
         df2, sn2 = conc2.frame(rows, decl, rng)
+        lap("frames")
 
         def fail(api, clause, feats, rec, entries, dags, obs, exp, detail=None):
             sig = (api, clause, json.dumps(feats, sort_keys=True))
@@ -490,6 +500,7 @@ def replay_groups(payload):
             except Exception as ex:  # noqa
                 fail(tname + ".__init__", "raises", {"type": t["t"]}, rec, entries[:1], [], repr(ex)[:300], "scorer constructed")
                 continue
+            lap("scorers")
             obs = {}
             broken = False
             for e in entries:
@@ -540,19 +551,20 @@ def replay_groups(payload):
                 if not close(s2, s0):
                     fail(tname + ".local_score", "data_permutation", efeat(e), rec, [e], [],
                          s2, s0, {"dtypes_b": conc2.kind, "frame_b": df2.to_dict(orient="list"), "state_names_b": sn2, "columns_b": {c: str(conc2.vn[c]) for c in conc2.cols}})
+            lap("local")
             if broken:
                 continue
             # ---- cached = uncached (miss, hit, eviction with a tiny cache)
             caches = []
-            for max_size in (10000, 2):
+            for max_size, qlen in ((10000, 8), (2, 5)) if (g["full"] or ntraces % 2) else ((10000, 6),):
                 try:
                     ch = ScoreCache(sc, df, max_size=max_size)
                 except Exception as ex:  # noqa
                     fail("ScoreCache.__init__", "raises", {"type": t["t"]}, rec, entries[:1], [], repr(ex)[:300], "cache constructed")
                     continue
                 caches.append(ch)
-                seq = [rng.choice(entries) for _ in range(min(2 * len(entries), 40))]
-                seq += seq[:6]
+                seq = [rng.choice(entries) for _ in range(min(len(entries), qlen))]
+                seq += seq[:3]                      # repeats: hits (big cache) / evictions and re-computation (size 2)
                 for e in seq:
                     v, ps = e["v"], sorted(e["ps"])
                     calls[0] += 1
@@ -567,6 +579,7 @@ def replay_groups(payload):
                     if not close(s1, obs[(v, tuple(ps))]):
                         fail("ScoreCache.local_score", "cache_local", {"type": t["t"], "max_size": max_size}, rec, [e], [], s1, obs[(v, tuple(ps))])
                         break
+            lap("cache")
             # ---- networks: decomposition, prior, cached score, structure_score, Markov equivalence
             by_key = {}
             for di, d in enumerate(g["dags"]):
@@ -606,7 +619,7 @@ def replay_groups(payload):
                         cs = repr(ex)[:200]
                     if not close(cs, total):
                         fail("ScoreCache.score", "cached_score", feats, rec, entries, [d], cs, total, {"edges": d["edges"]})
-                if t["t"] in ("k2", "bdeu", "bds", "bic") and di % 3 == 1:
+                if t["t"] in ("k2", "bdeu", "bds", "bic") and di % 4 == 1:
                     calls[0] += 1
                     tick("structure_score")
                     try:
@@ -615,6 +628,7 @@ def replay_groups(payload):
                         ss = repr(ex)[:200]
                     if not close(ss, total):
                         fail("metrics.structure_score", "structure_score", feats, rec, entries, [d], ss, total, {"edges": d["edges"]})
+            lap("networks")
             if t["t"] in EQUIV_TYPES:
                 done = set()
                 for d in g["dags"]:
@@ -627,4 +641,5 @@ def replay_groups(payload):
                             other = next(x for x in g["dags"] if x["key"] == k2)
                             fail(tname + ".score", "markov_equivalence", {"type": t["t"], "unobserved_child_state": any_unobs_child},
                                  rec, entries, [d, other], by_key[d["key"]], by_key[k2], {"dag_a": d["edges"], "dag_b": other["edges"]})
-    return {"n": ntraces, "calls": calls[0], "checks": checks, "fails": fails}
+    return {"n": ntraces, "calls": calls[0], "checks": checks, "fails": fails, "timing": {k: round(v, 1) for k, v in tim.items()},
+            "kinds": {k: sum(1 for g in payload["groups"] if g["inst"]["kind"] == k) for k in ("universe", "data")}}
